@@ -2,7 +2,7 @@
    facts they read. Mirrors fldDescriptor.Cardinality, Kind, IsMap, isMapEntry, parentIsMap, IsList,
    HasPresence, HasOptionalKeyword, IsPacked, internal.CanPack, enumDescriptor.IsClosed and
    msgDescriptor.RequiredNumbers as they are in the tree (with the three C04 repairs). Definitions only. *)
-From Coq Require Import List NArith Bool.
+From Coq Require Import List NArith ZArith Bool Ascii String DecimalString.
 From PV Require Import Model.FeaturesTables Model.Features.
 Import ListNotations.
 Open Scope N_scope.
@@ -102,6 +102,62 @@ Definition is_closed (edition : N) (c : chain) : bool :=
    C04-required-numbers) *)
 Definition required_numbers (fields : list field) : list N :=
   map f_number (filter (fun f => cardinality f =? CARD_REQUIRED) fields).
+
+(* ---- default values of the integer kinds: fldDescriptor.Default / parseDefaultValue ---- *)
+(* strconv.ParseUint(val, 10, bits) before its range check: one or more decimal digits, nothing else *)
+Definition parse_uint_text (s : string) : option Z :=
+  match s with
+  | EmptyString => None
+  | _ => match NilEmpty.uint_of_string s with Some d => Some (Z.of_uint d) | None => None end
+  end.
+
+(* strconv.ParseInt(val, 10, bits) before its range check: an optional sign, then as above *)
+Definition parse_int_text (s : string) : option Z :=
+  match s with
+  | String c r =>
+    if Ascii.eqb c "-"%char then option_map Z.opp (parse_uint_text r)
+    else if Ascii.eqb c "+"%char then parse_uint_text r
+    else parse_uint_text s
+  | EmptyString => None
+  end.
+
+(* protoreflect.Kind numbers *)
+Definition KIND_INT64 : N := 3.    Definition KIND_UINT64 : N := 4.   Definition KIND_INT32 : N := 5.
+Definition KIND_FIXED64 : N := 6.  Definition KIND_FIXED32 : N := 7.  Definition KIND_UINT32 : N := 13.
+Definition KIND_SFIXED32 : N := 15. Definition KIND_SFIXED64 : N := 16.
+Definition KIND_SINT32 : N := 17.  Definition KIND_SINT64 : N := 18.
+
+(* (signed, bits) of an integer kind as the switch of parseDefaultValue groups them *)
+Definition int_kind (k : N) : option (bool * Z) :=
+  if (k =? KIND_INT32) || (k =? KIND_SINT32) || (k =? KIND_SFIXED32) then Some (true, 32%Z)
+  else if (k =? KIND_UINT32) || (k =? KIND_FIXED32) then Some (false, 32%Z)
+  else if (k =? KIND_INT64) || (k =? KIND_SINT64) || (k =? KIND_SFIXED64) then Some (true, 64%Z)
+  else if (k =? KIND_UINT64) || (k =? KIND_FIXED64) then Some (false, 64%Z)
+  else None.
+
+Definition int_in_range (signed : bool) (bits v : Z) : bool :=
+  if signed then ((- 2 ^ (bits - 1) <=? v) && (v <? 2 ^ (bits - 1)))%Z
+  else ((0 <=? v) && (v <? 2 ^ bits))%Z.
+
+(* parseDefaultValue on an integer kind: ParseInt for the signed kinds, ParseUint for the unsigned ones, with
+   the bit size of the kind; None is the invalid Value *)
+Definition parse_default_int (k : N) (text : string) : option Z :=
+  match int_kind k with
+  | Some (signed, bits) =>
+    match (if signed then parse_int_text text else parse_uint_text text) with
+    | Some v => if int_in_range signed bits v then Some v else None
+    | None => None
+    end
+  | None => None
+  end.
+
+(* fldDescriptor.Default on a singular field of an integer kind: the parsed default_value, else the zero value
+   (also when the text cannot be parsed) *)
+Definition default_int (k : N) (default_value : option string) : Z :=
+  match default_value with
+  | Some text => match parse_default_int k text with Some v => v | None => 0%Z end
+  | None => 0%Z
+  end.
 
 (* ---- the code before the repairs, kept for the historical refutations in Proofs/Features.v ---- *)
 (* IsClosed compared with CLOSED *)
